@@ -245,6 +245,48 @@ func c16ModHexRef(values [][]byte) (string, bool) {
 	return string(out), true
 }
 
+// c16ModHexSiblings: a valid (or invalid) serial extension next to OTHER extensions of every shape - siblings in the
+// vendor arc with values of 0..4 bytes, shorter and longer OIDs, standard extensions - before and after the serial: the
+// answer depends on the serial extension alone.
+func c16ModHexSiblings(c *ev.Ctx) {
+	sibs := []asn1.ObjectIdentifier{{1, 3, 6, 1, 4, 1, 41482, 3, 9}, {1, 3, 6, 1, 4, 1, 41482, 3, 3}, {1, 3, 6, 1, 4, 1, 41482, 3, 8}, {1, 3, 6, 1, 4, 1, 41482, 3, 1}, {1, 3, 6, 1, 4, 1, 41482, 3, 70},
+		{1, 3, 6, 1, 4, 1, 41482, 3}, {1, 3, 6, 1, 4, 1, 41482, 3, 7, 1}, {1, 3, 6, 1, 4, 1, 41482, 4, 7}, {2, 5, 29, 15}, {1, 3, 6, 1, 4, 1, 41483, 3, 7}}
+	n := 0
+	for _, serial := range [][]byte{{2, 3, 0x5a, 0x1b, 0x2c}, {2, 4, 0, 0x5a, 0x1b, 0x2c}, {2, 2, 1, 2}, {2}} {
+		for _, oid := range sibs {
+			for vl := 0; vl <= 4; vl++ {
+				for _, pos := range []string{"before", "after", "both"} {
+					c.Eval()
+					n++
+					sib := pkix.Extension{Id: oid, Value: bytes.Repeat([]byte{7}, vl)}
+					cert := &x509.Certificate{}
+					if pos != "after" {
+						cert.Extensions = append(cert.Extensions, sib)
+					}
+					cert.Extensions = append(cert.Extensions, pkix.Extension{Id: c16SerialOID, Value: serial})
+					if pos != "before" {
+						cert.Extensions = append(cert.Extensions, sib)
+					}
+					cas := c16Case{Kind: "modhex", Values: []string{hex.EncodeToString(serial)}, Note: fmt.Sprintf("sibling extension %v with a %d-byte value %s the serial extension", oid, vl, pos)}
+					var got string
+					var err error
+					if p := ev.Guard(func() { got, err = yubiattest.ModHex(cert) }); p != "" {
+						c.Violation("C16:panic:"+ev.PanicSite(p), p, cas)
+						continue
+					}
+					want, ok := c16ModHexRef([][]byte{serial})
+					if ok && (err != nil || got != want) {
+						c.Violation("C16:modhex:wrong:depends-on-another-extension", fmt.Sprintf("ModHex = %q, %v; want %q (%s)", got, err, want, cas.Note), cas)
+					} else if !ok && err == nil {
+						c.Violation("C16:modhex:accepted-invalid", fmt.Sprintf("ModHex = %q for an invalid serial extension (%s)", got, cas.Note), cas)
+					}
+				}
+			}
+		}
+	}
+	c.Set("modhex_sibling_cases", n)
+}
+
 func c16ModHex(c *ev.Ctx, values [][]byte, parsed bool) {
 	c.Eval()
 	cas := c16Case{Kind: "modhex", Parsed: parsed}
@@ -376,7 +418,7 @@ func c16SameCerts(got []*x509.Certificate, ders [][]byte) bool {
 }
 
 func checkC16(c *ev.Ctx) {
-	c.Rule("corpus: x509.CreateCertificate over subject keys {RSA1024,RSA2048,P-256,P-384,P-521} x signature algorithms {SHA1/256/384/512-RSA, PSS-256, ECDSA-SHA256/384/512} x every subset of 7 extension kinds (all 128); each member: field-by-field comparison with crypto/x509, every 8th member also re-encoded with issuer/subject unique IDs, +trailing data, +NULL-less RSA re-encoding; a size ladder of 16 members whose total DER length is 65000..131072 bytes (65535 / 65536 / 65537 exactly: the three-byte length form); byte-mutation neighbourhood (every position x 7 replacements, every truncation) of a generating subset (quick 16+, thorough 64+ bases) for totality; PEM bundles of 0..5 x leading/trailing/between texts; ModHex over ALL extension values of length 0..4 (7-symbol alphabet) and 5..8 (3-symbol alphabet), absent, twice, per-position 256-value injectivity. non-trivial = corpus member compared / valid serial / bundle; distinct by construction parameters")
+	c.Rule("corpus: x509.CreateCertificate over subject keys {RSA1024,RSA2048,P-256,P-384,P-521} x signature algorithms {SHA1/256/384/512-RSA, PSS-256, ECDSA-SHA256/384/512} x every subset of 7 extension kinds (all 128); each member: field-by-field comparison with crypto/x509, every 8th member also re-encoded with issuer/subject unique IDs, +trailing data, +NULL-less RSA re-encoding; a size ladder of 16 members whose total DER length is 65000..131072 bytes (65535 / 65536 / 65537 exactly: the three-byte length form); byte-mutation neighbourhood (every position x 7 replacements, every truncation) of a generating subset (quick 16+, thorough 64+ bases) for totality; PEM bundles of 0..5 x leading/trailing/between texts; ModHex over ALL extension values of length 0..4 (7-symbol alphabet) and 5..8 (3-symbol alphabet), absent, twice, per-position 256-value injectivity; a serial extension next to sibling extensions (10 OIDs incl. the vendor arc's own siblings x values of 0..4 bytes x before / after / both). non-trivial = corpus member compared / valid serial / bundle; distinct by construction parameters")
 	c.Assume("crypto/x509 is the reference decoder for well-formed certificates", "certificates are produced by crypto/x509's encoder (a conforming encoder)")
 	if c.ReplayCase != nil {
 		var k c16Case
@@ -618,6 +660,7 @@ func checkC16(c *ev.Ctx) {
 			c16ModHex(c, [][]byte{v}, true)
 		}
 	}
+	c16ModHexSiblings(c)
 	c16ModHex(c, nil, false)
 	c16ModHex(c, nil, true)
 	for _, pair := range [][2][]byte{{{2, 4, 1, 2, 3, 4}, {2, 3, 9, 9, 9}}, {{2, 3, 9, 9, 9}, {1}}, {{1}, {2, 4, 1, 2, 3, 4}}, {{}, {}}} {
